@@ -42,6 +42,9 @@ CHECKS = {
  "C15": dict(cat="exploration", tech="exhaustive enumeration of reference structures (definition statuses x reference subsets) against a reachability oracle",
    text="All 6^3 status vectors of three definable names x all subsets of call-variant references x all acyclic body reference subsets x 4 targets: the three warning sets must equal the reachability oracle, every warning span must cover the offending name token, and deleting everything warned about must not change the script bytes or the verdict.",
    note="trusted: reachability oracle r8::warnings; Level L observes ValidGrammar's maps after main.rs's `_` exemption", ref="4/C15"),
+ "C16": dict(cat="exploration", tech="strict DOT parser (graphviz lexer rules) + structural comparison of the dumps with the compiled automaton / regex positions; binary file binding",
+   text="For every grammar of the enumerated families and a menu of hot strings in every textual role, the --dfa dump of each shell and the --regex dump must parse as DOT and show exactly the compiled automaton: one correctly named, labelled and shaped node per state, one labelled edge per transition, one cluster per within-word automaton numbered as in the scripts with entry/exit edges, every regex position as a labelled node; the files written by the real binary equal the library's bytes.",
+   note="trusted: harness/src/dot.rs (no dot binary installed)", ref="4/C16"),
  "C17": dict(cat="model_checking", tech="model BFS + bash trace replay with logging probe commands (call multiset vs model)",
    text="Every external command of the enumerated grammars is a probe that logs its identity and arguments and prints fixed lines (incl. candidates with blanks and TAB descriptions). For every model trace replayed in bash, COMPREPLY must follow R7 and the probe log must contain exactly the completion-phase calls the model expects (with the documented $1/$2) plus only matching-phase calls expected at the state of an earlier word.",
    note="trusted: as C01; log order is not used", ref="4/C17"),
@@ -68,7 +71,7 @@ def main():
             "technique": c["tech"],
         })
     all_ids = [f"C{n:02d}" for n in range(1, 18)]
-    na = [{"property_id": p, "reason": "check not built yet in this round (planned, see DESIGN.md section 4)"} for p in all_ids if p not in CHECKS]
+    na = [{"property_id": p, "reason": "check not built yet (see DESIGN.md)"} for p in all_ids if p not in CHECKS]
     m = {
         "version": 1,
         "setup_cmd": "./setup.sh",
